@@ -1530,13 +1530,11 @@ func call(n *node) {
 		nf := newFrame(f, len(def.types), f.runid())
 		var vararg reflect.Value
 
-		// Init return values
-		for i, v := range rvalues {
-			if v != nil {
-				nf.data[i] = v(f)
-			} else {
-				nf.data[i] = reflect.New(def.types[i]).Elem()
-			}
+		// Init return values. The results are variables of the callee, copied to their
+		// destination in the caller when the call returns normally: the callee must not
+		// see the destination through them, and a panic leaves the destination unchanged.
+		for i := range rvalues {
+			nf.data[i] = reflect.New(def.types[i]).Elem()
 		}
 
 		// Init local frame values
